@@ -77,7 +77,7 @@ def ff_getters(repo, res, ty, rule="FF"):
         if ok and tups:
             e = envs.get(id(tups[0]))
             a = [A.resolve(x, e) for x in tups[0]["elems"]]
-            ok = a[0][0] == "cast" and a[0][1][0] == "bin" and a[0][1][1] == "+" and {a[0][1][2][0], a[0][1][3][0]} == {"proj", "param"} and a[1][0] == "proj" and a[2][0] == "mcall" and a[2][1] == "unwrap_or"
+            ok = a[0][0] == "cast" and a[0][1][0] == "bin" and a[0][1][1] == "+" and {a[0][1][2][0], a[0][1][3][0]} == {"proj", "param"} and a[1][0] == "proj" and a[2][0] == "mcall" and a[2][1] in ("unwrap_or", "unwrap_or_else", "unwrap_or_default")
         res.check(ok and bool(tups), rule, f"{rule}:get_all_literals", "id = enumerate() position + array_start over get_top_level_literals_decreasing_length(); (id, literal, description or \"\")", fn.loc())
     # re-keying getters
     for fq, getter, idf in (("dfa::DFA::get_literal_transitions", "get_literal_transitions_from", "get"), ("dfa::DFA::get_command_transitions", "get_command_transitions_from", "get_index_of"), ("dfa::DFA::get_compadd_transitions", "get_compadd_transitions_from", "get_index_of")):
